@@ -1,12 +1,12 @@
-\* C20 thorough: 3 shards, one object and its tombstone
+\* C20 thorough: 3 shards, object + tombstone
 SPECIFICATION Spec
 CONSTANTS
   NS = 3
   MaxEpoch = 1
   BugH6 = TRUE
   CatSet = "c20s"
-  Ops = {"Put", "Bcast", "Delete", "Drop", "GC", "SetMode", "FailGet"}
-  Modes = {"rw", "ro", "dro"}
+  Ops = {"Put", "Bcast", "Delete", "GC", "SetMode", "FailGet"}
+  Modes = {"rw", "dro"}
   HealthyLock = FALSE
   MaxInFlight = 1
   Scenario = "none"
